@@ -481,7 +481,11 @@ inline int analogRead(int pin) {
   redu_rt::ev("ar %d %ld", pin, v);
   return static_cast<int>(v);
 }
-inline unsigned long millis() { return static_cast<unsigned long>(redu_rt::rt().now_us / 1000ULL); }
+inline unsigned long millis() {
+  unsigned long v = static_cast<unsigned long>(redu_rt::rt().now_us / 1000ULL);
+  redu_rt::ev("millis %lu", v);
+  return v;
+}
 inline unsigned long micros() { return static_cast<unsigned long>(redu_rt::rt().now_us); }
 inline void delay(unsigned long ms) {
   redu_rt::ev("delay %lu", ms);
